@@ -159,8 +159,14 @@ func c08Input(r *rand.Rand) ([]byte, string) {
 			if len(objs) > 0 {
 				o := objs[r.Intn(len(objs))]
 				i := r.Intn(len(o.K))
-				o.K[i] = pickStr(r, "", "\n", "\n\n", " ", "\x00", "é", ".", "/", "a/b/c", strings.Repeat("k", 300))
-				o.V[i] = cloneDoc(c08Hostile[r.Intn(len(c08Hostile))])
+				o.K[i] = pickStr(r, "", "\n", "\n\n", " ", "\x00", "é", ".", "/", "a/b/c", strings.Repeat("k", 300),
+					// qualified-name shapes: empty DNS labels, empty name or prefix, over-long parts
+					"example.com./note", "a..b/c", ".a/b", "a/", "/a", "a//b", "-/a", "./.", "../..", strings.Repeat("a.", 130)+"/x", "a/"+strings.Repeat("n", 64), "a.b/\xff", strings.Repeat(".", 300)+"/k")
+				if chance(r, 60) {
+					o.V[i] = pickStr(r, "v", "", "\n") // a plain string value: the key gets to be judged
+				} else {
+					o.V[i] = cloneDoc(c08Hostile[r.Intn(len(c08Hostile))])
+				}
 				what = append(what, "rekey")
 			}
 		}
@@ -254,6 +260,10 @@ func threadCPU() time.Duration {
 	unix.Getrusage(unix.RUSAGE_THREAD, &ru)
 	return time.Duration(ru.Utime.Nano() + ru.Stime.Nano())
 }
+
+type refuseAllValidator struct{}
+
+func (refuseAllValidator) Validate(*specs.Spec) error { return fmt.Errorf("refused by the test validator") }
 
 func checkC08(c *Ctx) {
 	c.Rule = "hostile byte strings as Spec file content (.json and .yaml; now and then behind a symbolic link, as a dangling link or as a file that vanishes at once): structure-aware mutations of valid documents (any value -> null / wrong type / empty / one letter / 100 KB string / 12000-deep nesting / 20000 elements / numeric extremes), YAML features (recursive and expanding aliases, merge keys, tags, multi-document, BOM, tabs, directives, complex and non-string keys), byte-level mutations (bit flip, delete, duplicate, splice, truncate, insert, replace) and random bytes, through ParseSpec, ReadSpec, Cache.Refresh+GetErrors, schema ValidateData/ValidateReader/Validate, and InjectDevices of every loadable mutated Spec into G-OCI specs; G-STR strings through cdi.ParseAnnotations/AnnotationKey/AnnotationValue/UpdateAnnotations and parser.*; plus a child process with an auto-refresh cache into whose directory hostile files are dropped: after each, a known-good file must get listed (the watcher goroutine lives); oracle: no panic, no fatal error/exit of the child, no call above 20 s CPU; distinct_nontrivial = distinct inputs (by hash) that got past the parser (reached validation or loaded)"
@@ -427,6 +437,57 @@ func checkC08(c *Ctx) {
 			os.Remove(path)
 		}
 	})
+	// external Spec validators come and go (the cdi tool installs one; a runtime may
+	// swap it): one that refuses a file is an error for that file, never the end of
+	// all later calls
+	c.RunNamed([]string{"validators"}, 1, func(cs *Case) {
+		vdir := filepath.Join(dir, "validators")
+		must(os.MkdirAll(vdir, 0o755))
+		good := filepath.Join(vdir, "good.json")
+		must(os.WriteFile(good, []byte(`{"cdiVersion":"0.6.0","kind":"vendor.com/gpu","devices":[{"name":"d","containerEdits":{"env":["A=b"]}}]}`), 0o644))
+		step := func(what string, f func()) bool {
+			done := make(chan any, 1)
+			go func() {
+				defer func() { done <- recover() }()
+				f()
+			}()
+			select {
+			case p := <-done:
+				if p != nil {
+					cs.Violation("panic", nil, fmt.Sprintf("%s panics: %v", what, p), nil)
+					return false
+				}
+				c.Count("validator_steps", 1)
+				return true
+			case <-time.After(60 * time.Second):
+				cs.Violation("hang", map[string]string{"phase": "validators"}, fmt.Sprintf("%s has not returned for 60 s (after a Spec validator refused a file and was replaced)", what), nil)
+				os.Exit(c.Finish()) // whatever is stuck holds locks every later call needs
+				return false
+			}
+		}
+		defer cdi.SetSpecValidator(nil)
+		for round := 0; round < 3; round++ {
+			for _, v := range []interface{ Validate(*specs.Spec) error }{refuseAllValidator{}, acceptAllValidator{}, builtin, refuseAllValidator{}} {
+				v := v
+				if !step("SetSpecValidator", func() { cdi.SetSpecValidator(v) }) ||
+					!step("ReadSpec with a validator installed", func() { cdi.ReadSpec(good, 0) }) ||
+					!step("NewCache+Refresh+ListDevices with a validator installed", func() {
+						cc, _ := cdi.NewCache(cdi.WithSpecDirs(vdir), cdi.WithAutoRefresh(false))
+						cc.Refresh()
+						cc.ListDevices()
+						cc.GetErrors()
+					}) ||
+					!step("WriteSpec with a validator installed", func() {
+						cc, _ := cdi.NewCache(cdi.WithSpecDirs(filepath.Join(vdir, "w")), cdi.WithAutoRefresh(false))
+						cc.WriteSpec(&specs.Spec{Version: "0.6.0", Kind: "vendor.com/gpu", Devices: []specs.Device{{Name: "d", ContainerEdits: specs.ContainerEdits{Env: []string{"A=b"}}}}}, "w.json")
+					}) {
+					return
+				}
+			}
+		}
+		step("SetSpecValidator(nil)", func() { cdi.SetSpecValidator(nil) })
+	})
+	c.Floor("validator_steps", 40)
 	// mode 2: the watcher goroutine of a child process
 	exe, _ := os.Executable()
 	nbatch := c.pick(4, 30)
